@@ -8,6 +8,7 @@ def main():
     checks = None
     root, offset = "/tmp/seed", 0
     own_first = "--own-first" in sys.argv
+    own_only = "--own-only" in sys.argv   # the property's own check only (fast triage; the other checks are run later for the misses)
     for a in sys.argv[1:]:
         if a.startswith("--checks="): checks = a.split("=", 1)[1].split(",")
         if a.startswith("--root="): root = a.split("=", 1)[1]
@@ -30,7 +31,9 @@ def main():
                 print(r.stdout[-3000:], r.stderr[-500:], flush=True)
                 try: return json.load(open(os.path.join(ROOT, "work", "seedruns", name, "result.json")))
                 except Exception: return {}
-            if own_first and not checks:
+            if own_only and not checks:
+                res = run([pid])
+            elif own_first and not checks:
                 # the property's own check first; the other checks only when it misses the change
                 res = run([pid])
                 if not any(l.startswith("VIOLATION") and "no-failing-input-found" not in l for l in res.get(pid, {}).get("lines", [])):
